@@ -1313,7 +1313,11 @@ class DocutilsRenderer(RendererProtocol):
 
         for key, value in data.items():
             if not isinstance(value, str | int | float | date | datetime):
-                value = json.dumps(value, default=str)
+                try:
+                    value = json.dumps(value, default=str)
+                except (TypeError, ValueError):
+                    # keys that JSON cannot encode, or a self-referencing alias
+                    value = repr(value)
             value = str(value)
             body = nodes.paragraph()
             body.source, body.line = self.document["source"], line
